@@ -430,6 +430,14 @@ def run(ctx):
     # ------------------------------------------------------------------ R04.14
     rule_hash_codes(ctx, mir, idx)
 
+    # ------------------------------------------------------------------ R04.15 (= R03.7), R04.16 (= R03.1)
+    # which elements are open (and with which attributes) is what the VM matches on
+    from .c03 import rule_self_closing_ns, rule_product
+    rule_self_closing_ns(ctx, mir, rid="R04.15")
+    from ..smgraph import Graph as _G4, automaton as _a4
+    _aut4 = _a4()
+    rule_product(ctx, _G4(_aut4), _aut4, rid="R04.16")
+
     ctx.not_decided += ["correctness of the compiled program (prefix sharing, jumps, recovery points) against CSS semantics for all selector sets x documents: a behavioural equivalence out of reach of this technique",
                         "the arithmetic of NthChild::has_index (value-level; e.g. sign handling for negative steps)"]
     return ("Structural clauses only: validator/translator agreement over the selectors crate's Component, Combinator and NthType variants, the "
